@@ -1,4 +1,26 @@
+(* C10 driver.
+   c10.batches / c10.epoch / c10.decorated / c10.val_blocks / c10.cat run the REFERENCE model (Model/Batch.v (1));
+   c10.code_* run the CODE model (Model/Batch.v (2)) instantiated with the rules regenerated from the Python
+   sources (Gen/BatchRules.v).  A code-model result is an option: "N" = out of fuel. *)
 open Common
+let rec pos_of_int n = if n <= 1 then BinNums.Coq_xH else if n land 1 = 0 then BinNums.Coq_xO (pos_of_int (n lsr 1)) else BinNums.Coq_xI (pos_of_int (n lsr 1))
+let z_of_int n = if n = 0 then BinNums.Z0 else if n > 0 then BinNums.Zpos (pos_of_int n) else BinNums.Zneg (pos_of_int (- n))
+let rec int_of_pos = function BinNums.Coq_xH -> 1 | BinNums.Coq_xO p -> 2 * int_of_pos p | BinNums.Coq_xI p -> 2 * int_of_pos p + 1
+let int_of_z = function BinNums.Z0 -> 0 | BinNums.Zpos p -> int_of_pos p | BinNums.Zneg p -> - (int_of_pos p)
+
+let br = BatchRules.batch_rules
+let vr = BatchRules.val_rules fops
+(* numpy's permutation oracle: the harness supplies permutation(len(perm)); any other length asked for by the
+   regenerated rules is an error of the correspondence *)
+let oracle perm = fun m ->
+  if int_of_z m = Stdlib.List.length perm then perm
+  else failwith (Printf.sprintf "permutation(%d) requested, permutation(%d) supplied" (int_of_z m) (Stdlib.List.length perm))
+let out_idx = out_list out_nat
+let out_yield (r, (ar, ac)) = out_idx r; out_idx ar; out_idx ac
+let out_reads (ir, ((ar, ac), gr)) = out_idx ir; out_idx ar; out_idx ac; out_idx gr
+(* block score oracle: the score of the block whose first data row is i is sc.(i) *)
+let score_of sc = fun rows _ _ -> match rows with [] -> nan | i :: _ -> sc.(int_of_nat i)
+
 let () =
   (* batches <bs> <perm list> -> list of lists *)
   register "c10.batches" (fun t ->
@@ -14,4 +36,41 @@ let () =
   register "c10.val_blocks" (fun t ->
     let n = next_nat t in let bs = next_nat t in
     out_list (out_list out_nat) (Batch.val_blocks n bs));
-  register "c10.cat" (fun t -> let n = next_nat t in out_list (out_list out_nat) (Batch.cat_epoch n))
+  register "c10.cat" (fun t -> let n = next_nat t in out_list (out_list out_nat) (Batch.cat_epoch n));
+  (* ---- code model with the regenerated rules ---- *)
+  (* code_epoch <n> <bs option> <perm> -> option list of (rows, affinity rows, affinity columns) *)
+  register "c10.code_epoch" (fun t ->
+    let n = next_nat t in let bs = next_opt next_nat t in let perm = next_list next_nat t in
+    out_opt (out_list out_yield) (Batch.code_batchify br n bs (oracle perm)));
+  (* code_decorated <n> <bs option> <perm> -> option list of (recorded, rows, affinity rows, affinity columns) *)
+  register "c10.code_decorated" (fun t ->
+    let n = next_nat t in let bs = next_opt next_nat t in let perm = next_list next_nat t in
+    out_opt (out_list (fun (rec_, (r, (ar, ac))) -> out_idx rec_; out_idx r; out_idx ar; out_idx ac))
+      (Batch.code_decorated br BatchRules.deco_rules n bs (oracle perm)));
+  (* code_fit <max_iter> <n> <bs option> <max_iter perms> -> n_iter_, option list of step reads *)
+  register "c10.code_fit" (fun t ->
+    let mi = next_int t in let n = next_nat t in let bs = next_opt next_nat t in
+    let perms = Array.of_list (next_list (next_list next_nat) t) in
+    let p e = let e = int_of_nat e in
+      if e < Array.length perms then oracle perms.(e) else failwith "more epochs requested than permutations supplied" in
+    out_int (int_of_z (Batch.code_n_iter BatchRules.fit_rules (z_of_int mi)));
+    out_opt (out_list out_reads) (Batch.code_fit_trace br BatchRules.fit_rules (nat_of_int mi) n bs p));
+  (* code_n_iter <max_iter> -> the value fit stores in n_iter_ *)
+  register "c10.code_n_iter" (fun t ->
+    let mi = next_int t in out_int (int_of_z (Batch.code_n_iter BatchRules.fit_rules (z_of_int mi))));
+  (* code_path_epoch <n> <bs option> <perm> -> option list of step reads *)
+  register "c10.code_path_epoch" (fun t ->
+    let n = next_nat t in let bs = next_opt next_nat t in let perm = next_list next_nat t in
+    out_opt (out_list out_reads) (Batch.code_path_epoch br BatchRules.path_step_rules n bs (oracle perm)));
+  (* code_val <n> <bs> -> option list of (rows, y rows, y columns) *)
+  register "c10.code_val" (fun t ->
+    let n = next_nat t in let bs = next_int t in
+    out_opt (out_list out_yield) (Batch.code_val_blocks vr n (z_of_int bs)));
+  (* code_val_score <n> <bs> <n scores, by first row of the block> -> option float *)
+  register "c10.code_val_score" (fun t ->
+    let n = next_nat t in let bs = next_int t in let sc = Array.of_list (next_list next_float t) in
+    out_opt out_float (Batch.code_val_score vr n (z_of_int bs) (score_of sc)));
+  (* code_path_val_score <n> <bs option> <scores> : batch_size defaulted as _run_path does *)
+  register "c10.code_path_val_score" (fun t ->
+    let n = next_nat t in let bs = next_opt next_nat t in let sc = Array.of_list (next_list next_float t) in
+    out_opt out_float (Batch.code_path_val_score vr n bs (score_of sc)))
